@@ -211,9 +211,9 @@ example : parseObjs "! a = 1\nb = 2".toList = .error (.runtime "improper_definit
 example : parseObjs "!!a = 1\nb = 2".toList = .error (.runtime "improper_definition_name" (some 1)) := by
   decide +kernel
 
-/-- **`!` in front of a dotted name disables the innermost object only**: `!a.b = 1` yields an ENABLED
+/-- **`!` in front of a dottedName name disables the innermost object only**: `!a.b = 1` yields an ENABLED
     scope `a` (built by `scope.adopt`) holding the disabled definition `b` — whereas `!a {` / `b = 1` /
-    `}` yields a DISABLED scope `a` holding an enabled `b`.  So with `!` the dotted and the nested
+    `}` yields a DISABLED scope `a` holding an enabled `b`.  So with `!` the dottedName and the nested
     spelling are not interchangeable (they are without, see `dotted_equals_nested`). -/
 theorem bang_dotted_versus_nested :
     parseObjs "!a.b = 1\n".toList = .ok
